@@ -407,6 +407,17 @@ fn static_facts() {
     send_sync::<Val>();
 }
 
+/// Compile with a different list of native filters (one more in front): compilations with different lists may coexist.
+fn compile_alt(code: &str, vars: &[String]) -> Result<data::Filter, String> {
+    let extra: jaq_core::native::Fun<DataKind> = jaq_core::native::run::<DataKind>((
+        "verif_answer",
+        jaq_core::native::v(0),
+        |_| jaq_core::box_iter::box_once(Ok(Val::from(42isize))),
+    ));
+    jaq_all::compile_with(code, jaq_all::defs(), core::iter::once(extra).chain(data::funs()), vars)
+        .map_err(|_| "compile".to_string())
+}
+
 /// One isolated run: the outputs (at most `limit`) and the terminator, as text.
 fn run_text(filter: &data::Filter, vals: Vec<Val>, inputs: Vec<Val>, limit: usize) -> String {
     let inputs: Box<dyn Iterator<Item = Result<Val, String>>> = Box::new(inputs.into_iter().map(Ok));
@@ -496,12 +507,15 @@ fn cmd_threads(args: &[Sx]) -> Result<Sx, String> {
         .collect();
     let differ = std::sync::Mutex::new(None);
     let stop = std::sync::atomic::AtomicBool::new(false);
+    let barrier = std::sync::Barrier::new(t);
     std::thread::scope(|sc| {
-        // a thread that compiles while the others run
+        // a thread that compiles while the others run, with two different lists of natives in turn
         sc.spawn(|| {
+            let mut k = 0usize;
             while !stop.load(std::sync::atomic::Ordering::Relaxed) {
                 for p in &ps {
-                    let _ = compile(&p.code, &p.names);
+                    k += 1;
+                    let _ = if k % 2 == 0 { compile(&p.code, &p.names) } else { compile_alt(&p.code, &p.names) };
                 }
             }
         });
@@ -524,14 +538,61 @@ fn cmd_threads(args: &[Sx]) -> Result<Sx, String> {
                             let mk = |xs: &[Sx]| xs.iter().map(|x| val::from_sx(x).unwrap()).collect::<Vec<Val>>();
                             (mk(&p.vals), mk(&p.inputs))
                         };
-                        let got = catch_unwind(AssertUnwindSafe(|| run_text(&p.filter, vals, inputs, limit)))
-                            .unwrap_or_else(|_| "panic".to_string());
+                        // mostly the shared compiled filter; now and then a fresh compilation (either list of natives)
+                        let fresh = (k + ti + ri) % 7 == 0;
+                        let got = catch_unwind(AssertUnwindSafe(|| {
+                            if fresh {
+                                let f = if (k + ti) % 2 == 0 { compile(&p.code, &p.names) } else { compile_alt(&p.code, &p.names) };
+                                match f {
+                                    Ok(f) => run_text(&f, vals, inputs, limit),
+                                    Err(_) => "does-not-compile".to_string(),
+                                }
+                            } else {
+                                run_text(&p.filter, vals, inputs, limit)
+                            }
+                        }))
+                        .unwrap_or_else(|_| "panic".to_string());
                         if got != p.alone {
                             let mut d = differ.lock().unwrap();
                             if d.is_none() {
                                 *d = Some((i, ti, ri, got));
                             }
                             return;
+                        }
+                    }
+                }
+            }));
+        }
+        for h in hs {
+            let _ = h.join();
+        }
+        // second phase: all threads run the same shared filter at the same time, program after program
+        let mut hs = Vec::new();
+        for ti in 0..t {
+            let ps = &ps;
+            let differ = &differ;
+            let barrier = &barrier;
+            #[cfg(feature = "sync")]
+            let shared = &shared;
+            hs.push(sc.spawn(move || {
+                for (i, p) in ps.iter().enumerate() {
+                    barrier.wait();
+                    for ri in 0..(r * 8) {
+                        #[cfg(feature = "sync")]
+                        let (vals, inputs) = shared[i].clone();
+                        #[cfg(not(feature = "sync"))]
+                        let (vals, inputs) = {
+                            let mk = |xs: &[Sx]| xs.iter().map(|x| val::from_sx(x).unwrap()).collect::<Vec<Val>>();
+                            (mk(&p.vals), mk(&p.inputs))
+                        };
+                        let got = catch_unwind(AssertUnwindSafe(|| run_text(&p.filter, vals, inputs, limit)))
+                            .unwrap_or_else(|_| "panic".to_string());
+                        if got != p.alone {
+                            let mut d = differ.lock().unwrap();
+                            if d.is_none() {
+                                *d = Some((i, ti, 1000 + ri, got));
+                            }
+                            break;
                         }
                     }
                 }
